@@ -33,6 +33,7 @@ KINDS = (
     "err_404_length",  # 12: 404 with Content-Length: 0
     "no_content_204",  # 13: 204 No Content (bodiless by definition), keep-alive
     "created_201_empty",  # 14: 201 with Content-Length: 0
+    "bodiless_status_open",  # 15: '503' with no length and no body, and the peer keeps the connection open
 )
 
 
@@ -226,6 +227,8 @@ class ScriptedSocket(object):
             self.stream += response(204, "No Content", [], b"")
         elif kind == 14:
             self.stream += response(201, "Created", ["Content-Length: 0"], b"")
+        elif kind == 15:
+            self.stream += b"HTTP/1.1 503 Service Unavailable\r\n\r\n"
         else:
             # 2 (refuse) and 4 (reset) are consumed at connect / first send; if they
             # come up here (mid-connection) the peer simply drops the connection
@@ -302,7 +305,7 @@ def h_faults(shape, L):
             else:
                 ex = outcome[1]
                 if isinstance(ex, jsonrpc.TransportError):
-                    statuses = {5: 500, 6: 503, 7: 500, 12: 404, 13: 204, 14: 201}
+                    statuses = {5: 500, 6: 503, 7: 500, 12: 404, 13: 204, 14: 201, 15: 503}
                     allowed = [statuses[k] for k, _ in mine if k in statuses]
                     if ex.errcode not in allowed:
                         return 2
@@ -310,7 +313,7 @@ def h_faults(shape, L):
                         return 3
                     if ex.url is None or ex.errcode is None:
                         return 4
-                elif (mine and mine[-1][0] in (5, 6, 7, 12, 13, 14)
+                elif (mine and mine[-1][0] in (5, 6, 7, 12, 13, 14, 15)
                       and not isinstance(ex, (http.client.HTTPException, OSError))):
                     # the last thing the peer said was a non-200 status: TransportError expected.
                     # (A connection-state error -- the previous, bodiless reply was never consumed --
